@@ -2,12 +2,15 @@
 C05 — Cache admission: only finished, successful, non-volatile results are served; what is served is fresh.
 Theorems over LiquerModel/Eval.lean and LiquerModel/Ref.lean; helper lemmas in LiquerProofs/Lemmas/Eval*.lean.
 `Sound`, `Closed`, `CanonOK`: see the header of Props/C01.lean.
+The text hypothesis `CanonOK` is discharged by C02's round trip for every class of `wfTop` queries: the `_wf`
+corollaries (last section).
 -/
 import LiquerModel.Ref
 import LiquerProofs.Inst.Vocab
 import LiquerProofs.Lemmas.EvalCache
 import LiquerProofs.Lemmas.EvalExact
 import LiquerProofs.Lemmas.EvalExample
+import LiquerProofs.Lemmas.EvalCanon
 
 namespace Liquer.C05
 
@@ -134,6 +137,53 @@ example :
     qOneBoom.hasStep = true ∧ qOneBoom.encode Gen.escapeTable = s "one/boom" := by
   decide +kernel
 
+/-! ### the canonical-text hypothesis discharged: closed classes of well-formed queries (C02's round trip) -/
+
+/-- every well-formed query of the class means what its canonical text means (Lemmas/EvalCanon.lean) -/
+theorem canon_of_wf {env : Env} (hd : DecOK env.dec) {C : Query → Prop}
+    (hwf : ∀ q, C q → wfTop Gen.escapeTable q = true) : ∀ q, C q → CanonOK env q :=
+  fun q hq => CanonOK.of_same (Canon.canonSame_of_wf env hd q (hwf q hq))
+
+/-- `served_is_fresh` for a closed class of well-formed queries -/
+theorem served_is_fresh_wf {env : Env} (hd : DecOK env.dec) {C : Query → Prop} {T : Str → Prop}
+    (hC : Closed env C T) (hwf : ∀ q, C q → wfTop Gen.escapeTable q = true) (fuel : Nat) (h : List HistOp)
+    (hok : ∀ op ∈ h, op.ok C T) (k : Str) (st : EState) (hg : (runHist env fuel {} h).get k = some st) :
+    ∃ fuel' st' c, refText env fuel' k = (.st st', c) ∧ st'.isError = false ∧ st'.volatile = false ∧
+      st'.caching = true ∧ st.core = st'.core :=
+  served_is_fresh hC (canon_of_wf hd hwf) fuel h hok k st hg
+
+/-- `served_is_fresh_from` for a closed class of well-formed queries -/
+theorem served_is_fresh_from_wf {env : Env} (hd : DecOK env.dec) {C : Query → Prop} {T : Str → Prop}
+    (hC : Closed env C T) (hwf : ∀ q, C q → wfTop Gen.escapeTable q = true) (fuel : Nat) (h : List HistOp)
+    (w : World) (hS : Sound env w) (hok : ∀ op ∈ h, op.ok C T) : Sound env (runHist env fuel w h) :=
+  served_is_fresh_from hC (canon_of_wf hd hwf) fuel h w hS hok
+
+/-- `never_data` for a closed class of well-formed queries -/
+theorem never_data_wf {env : Env} (hd : DecOK env.dec) {C : Query → Prop} {T : Str → Prop} (hC : Closed env C T)
+    (hwf : ∀ q, C q → wfTop Gen.escapeTable q = true) (fuel : Nat) (h : List HistOp) (hok : ∀ op ∈ h, op.ok C T)
+    (k : Str) (m : Nat) (s : EState) (c : List Str) (href : refText env m k = (.st s, c))
+    (hbad : s.isError = true ∨ s.volatile = true ∨ s.caching = false) :
+    (runHist env fuel {} h).get k = none :=
+  never_data hC (canon_of_wf hd hwf) fuel h hok k m s c href hbad
+
+/-- `never_data_raised` for a closed class of well-formed queries -/
+theorem never_data_raised_wf {env : Env} (hd : DecOK env.dec) {C : Query → Prop} {T : Str → Prop}
+    (hC : Closed env C T) (hwf : ∀ q, C q → wfTop Gen.escapeTable q = true) (fuel : Nat) (h : List HistOp)
+    (hok : ∀ op ∈ h, op.ok C T) (k : Str) (m : Nat) (hne : (refText env m k).1 ≠ .unmodelled)
+    (hns : ∀ s, (refText env m k).1 ≠ .st s) : (runHist env fuel {} h).get k = none :=
+  never_data_raised hC (canon_of_wf hd hwf) fuel h hok k m hne hns
+
+-- non-vacuity of the `_wf` hypotheses: the decoder of the example environment is a decoder, the example family
+-- (closed, contains a link argument) consists of well-formed queries, and a history over it satisfies `ok`
+open Ex in
+example : DecOK env0.dec ∧ Closed env0 C0 T0 ∧ (∀ q, C0 q → wfTop Gen.escapeTable q = true) ∧
+    (∀ op ∈ [HistOp.eval qLink (s "one/add-~X~/one~E"), .evalExtra qOneAdd (s "one/add-2") (.list [])], op.ok C0 T0) := by
+  refine ⟨decUtf8_ok, closed0, ?_, ?_⟩
+  · intro q hq; rcases hq with rfl | rfl | rfl | rfl <;> decide +kernel
+  · intro op hm
+    simp only [List.mem_cons, List.not_mem_nil, or_false] at hm
+    rcases hm with rfl | rfl <;> simp [HistOp.ok, C0]
+
 end Liquer.C05
 
--- OBLIGATIONS: Liquer.C05.inst_registry Liquer.C05.served_is_fresh Liquer.C05.served_is_fresh_from Liquer.C05.never_data Liquer.C05.never_data_raised Liquer.C05.not_admitted Liquer.C05.extra_is_volatile Liquer.C05.never_stored Liquer.C05.never_stored_get Liquer.C05.nocache_chain_frame Liquer.C05.metadata_only Liquer.C05.nocache_stays
+-- OBLIGATIONS: Liquer.C05.inst_registry Liquer.C05.served_is_fresh Liquer.C05.served_is_fresh_from Liquer.C05.never_data Liquer.C05.never_data_raised Liquer.C05.not_admitted Liquer.C05.extra_is_volatile Liquer.C05.never_stored Liquer.C05.never_stored_get Liquer.C05.nocache_chain_frame Liquer.C05.metadata_only Liquer.C05.nocache_stays Liquer.C05.canon_of_wf Liquer.C05.served_is_fresh_wf Liquer.C05.served_is_fresh_from_wf Liquer.C05.never_data_wf Liquer.C05.never_data_raised_wf
